@@ -1,0 +1,100 @@
+//go:build verif
+
+package column
+
+import (
+	"sort"
+	"sync/atomic"
+)
+
+// VerifHook, when set, is called at every scheduling point of the commit, snapshot,
+// insert and key protocols (build tag "verif" only).
+var VerifHook atomic.Value // of func(point string, chunk uint32)
+
+func verifYield(point string, chunk uint32) {
+	if h, ok := VerifHook.Load().(func(string, uint32)); ok && h != nil {
+		h(point, chunk)
+	}
+}
+
+// VerifFill returns a copy of the fill list words.
+func (c *Collection) VerifFill() []uint64 {
+	c.lock.RLock()
+	defer c.lock.RUnlock()
+	out := make([]uint64, len(c.fill))
+	copy(out, c.fill)
+	return out
+}
+
+// VerifCommits returns a copy of the last commit id of each chunk.
+func (c *Collection) VerifCommits() []uint64 {
+	c.lock.RLock()
+	defer c.lock.RUnlock()
+	out := make([]uint64, len(c.commits))
+	copy(out, c.commits)
+	return out
+}
+
+// VerifRecording tells whether a snapshot recorder is currently installed.
+func (c *Collection) VerifRecording() bool {
+	_, ok := c.isSnapshotting()
+	return ok
+}
+
+// VerifFindFreeIndex runs the allocator's search on an arbitrary fill list.
+func VerifFindFreeIndex(fill []uint64, count uint64) uint32 {
+	c := &Collection{fill: fill}
+	return c.findFreeIndex(count)
+}
+
+// VerifKeys returns the primary key lookup table.
+func (c *Collection) VerifKeys() map[string]uint32 {
+	out := map[string]uint32{}
+	if c.pk == nil {
+		return out
+	}
+	c.pk.lock.RLock()
+	defer c.pk.lock.RUnlock()
+	for k, v := range c.pk.seek {
+		out[k] = v
+	}
+	return out
+}
+
+// VerifContains tells whether the named column holds a value at the offset.
+func (c *Collection) VerifContains(columnName string, idx uint32) (present, exists bool) {
+	col, ok := c.cols.Load(columnName)
+	if !ok {
+		return false, false
+	}
+	defer func() {
+		if recover() != nil {
+			present = false
+		}
+	}()
+	return col.Contains(idx), true
+}
+
+// VerifSortIndex returns the (key, offset) items of a sorted index in tree order.
+func (c *Collection) VerifSortIndex(indexName string) (keys []string, offsets []uint32) {
+	col, ok := c.cols.Load(indexName)
+	if !ok {
+		return
+	}
+	if s, ok := col.Column.(*columnSortIndex); ok {
+		s.btree.Scan(func(item sortIndexItem) bool {
+			keys = append(keys, item.Key)
+			offsets = append(offsets, item.Value)
+			return true
+		})
+	}
+	return
+}
+
+// VerifColumns returns the names of the registered columns (indexes included), sorted.
+func (c *Collection) VerifColumns() []string {
+	var out []string
+	c.cols.Range(func(col *column) { out = append(out, col.name) })
+	sort.Strings(out)
+	return out
+}
